@@ -42,6 +42,96 @@ def to_scenario(sid, hist, rng, with_moves):
     return {"id": sid, "owner": owner, "answers": answers, "steps": steps, "ttlOk": TTL_OK, "ttlFail": TTL_FAIL}
 
 
+HTTP_TTL_OK, HTTP_TTL_FAIL = 600, 300
+HOSTNAME = {"a": "ca", "b": "cb", "x": "x.example"}
+STUB_OF = {"A": 0, "B": 1}
+
+
+def http_cluster(name, stub, aliases):
+    return {"name": name, "aliases": aliases, "servers": [{"stub": stub, "disabled": False}], "policies": [{"resources": ["*"], "nonres": ["*"], "subset": [], "flow": ""}], "flows": [], "gates": ""}
+
+
+def http_scenario(sid, hist, rng):
+    """AuthCache.tla history over REAL HTTP: hosts a / b are the clusters' own names, x is a server name that MOVES between the two live
+    clusters (dropped by one, added to the other: the controller's Delete + AddWithKey); requests carry a bearer token (TokenReview) and
+    half of them an Impersonate-User header (SubjectAccessReview)"""
+    owner = {"a": "A", "b": "B", "x": "A"}
+    steps = [{"k": "apply", "cluster": http_cluster("ca", 0, ["x.example"])}, {"k": "apply", "cluster": http_cluster("cb", 1, [])},
+             {"k": "waitready", "name": "ca", "ready": [0]}, {"k": "waitready", "name": "cb", "ready": [1]}]
+    n = 0
+
+    def req(h, key):
+        nonlocal n
+        n += 1
+        st = {"k": "req", "id": "r%d" % n, "host": HOSTNAME[h], "method": "GET", "path": "/api/v1/namespaces/d/pods", "token": "token-" + key, "resp": {"status": 200, "bodySize": 2}, "h": h}
+        if n % 2 == 0:
+            st["headers"] = [["Impersonate-User", "bob-" + key]]
+        return st
+    for h in hist:
+        k = h["k"]
+        if k == "req":
+            steps.append(req(h["h"], h["key"]))
+        elif k == "pair":
+            steps += [req(h["h"], h["key"]), req(h["c"], h["key"])]
+        elif k == "tick":
+            steps.append({"k": "sleep", "n": HTTP_TTL_OK + 80})
+        elif k == "move" and h["h"] == "x" and owner["x"] != h["c"]:
+            old, new = owner["x"], h["c"]
+            steps += [{"k": "apply", "cluster": http_cluster("c" + old.lower(), STUB_OF[old], [])}, {"k": "own", "h": "x", "c": -1},
+                      {"k": "apply", "cluster": http_cluster("c" + new.lower(), STUB_OF[new], ["x.example"])}, {"k": "own", "h": "x", "c": STUB_OF[new]}]
+            owner["x"] = new
+    steps.append({"k": "req", "id": "end-marker", "host": "nobody", "method": "GET", "path": "/version", "token": "t"})
+    return {"id": sid, "stubs": 2, "tokens": {}, "authz": [], "authzDefault": "deny", "webhookAuth": True, "ttlOkMs": HTTP_TTL_OK if sid % 3 else 0, "ttlFailMs": HTTP_TTL_FAIL if sid % 3 else 0, "steps": steps}
+
+
+def http_part(v, tier, seed, rng, wd, hists, replay_sc=None):
+    scs = [replay_sc] if replay_sc is not None else [http_scenario(500001 + i, h, rng) for i, h in enumerate(hists)]
+    binp = os.path.join(wd, "proxyh.test")
+    vlib.go_test_build("./proxyh", binp)
+    traces, crashed = vlib.run_test_driver(binp, scs, wd, timeout=900, name="http")
+    sc_by_id = {str(s["id"]): s for s in scs}
+    for sid, tail in crashed.items():
+        if "HARNESS-INFRA" in tail:
+            raise Infra("proxyh: " + tail[-600:])
+        v.violation("crash-%s" % sid, {"scenario": sc_by_id[sid], "kind": "http", "what": "gateway crashed", "stderr_tail": tail})
+    tl = []
+    for sid, t in traces.items():
+        hof = {s["id"]: s["h"] for s in sc_by_id[sid]["steps"] if s["k"] == "req" and "h" in s}
+        evs = []
+        cur = None
+        for e in t["events"]:
+            if e["k"] == "own":
+                evs.append({"k": "own", "h": e["h"], "c": e["c"], "reviews": [], "user": -1, "at": -1, "imp": False})
+            elif e["k"] == "send" and e["id"] in hof:
+                cur = {"k": "req", "h": hof[e["id"]], "c": 0, "reviews": [], "user": -1, "at": -1, "id": e["id"], "imp": any(k3.lower() == "impersonate-user" for k3, _ in (e.get("headers") or []))}
+            elif e["k"] == "review" and cur is not None:
+                cur["reviews"].append(e["stub"])
+            elif e["k"] == "arrive" and cur is not None and e["id"] == cur["id"]:
+                cur["at"] = e["stub"]
+                for k2, val in e["headers"]:
+                    m = re.match(r"user-of-stub(\d+)$", val) if k2.lower() == "impersonate-user" else None
+                    if m:
+                        cur["user"] = int(m.group(1))
+            elif e["k"] == "response" and cur is not None and e["id"] == cur["id"]:
+                evs.append(cur)
+                cur = None
+        tl.append({"id": int(sid), "owner": {"a": 0, "b": 1, "x": 0}, "events": evs})
+    tr_p = os.path.join(wd, "authhttp.ndjson")
+    vlib.write_ndjson(tr_p, tl)
+    tv = vlib.tlc("dataplane", "TraceAuthHttp", "TraceAuthHttp.cfg", workers=8, timeout=1200, consts={"TraceFile": '"%s"' % tr_p})
+    by_id = {str(t["id"]): t for t in tl}
+    nrej = 0
+    for l in tv.out.splitlines():
+        if l.startswith('<<"REJECT"'):
+            parts = [x.strip() for x in l.strip("<>").split(",")]
+            sid, line = parts[1], int(parts[2])
+            nrej += 1
+            v.violation("http-%s" % sid, {"scenario": sc_by_id[sid], "kind": "http", "rejected_request": by_id[sid]["events"][line - 1], "events_before": by_id[sid]["events"][max(0, line - 6):line - 1],
+                                          "what": "over real HTTP: a review went to a cluster the request's host does not belong to, or the request was forwarded to / acts as an identity given by another cluster"})
+    reqs = sum(1 for t in tl for e in t["events"] if e["k"] == "req")
+    return tv.distinct, tv.generated, reqs, len(tl) - nrej
+
+
 def main(tier, replay):
     t0 = time.time()
     seed = vlib.seed()
@@ -50,6 +140,10 @@ def main(tier, replay):
     v = vlib.Verdict(PROP)
     try:
         states = trans = 0
+        hreqs = htraces = 0
+        if replay and json.load(open(replay)).get("kind") == "http":
+            http_part(v, tier, seed, rng, wd, None, replay_sc=json.load(open(replay))["scenario"])
+            return v.finish()
         if replay:
             scs = [json.load(open(replay))["scenario"]]
         else:
@@ -69,6 +163,8 @@ def main(tier, replay):
             if len(hists) < 10:
                 raise Infra("too few histories")
             scs = [to_scenario(i + 1, h, rng, with_moves=(i % 2 == 0)) for i, h in enumerate(hists)]
+            hs, ht, hreqs, htraces = http_part(v, tier, seed, rng, wd, [h for h in hists if any(e["k"] == "move" and e["h"] == "x" for e in h)][:25 if tier == "quick" else 300])
+            states, trans = states + hs, trans + ht
         binp = os.path.join(wd, "authh.test")
         vlib.go_test_build("./authh", binp)
         traces, crashed = vlib.run_test_driver(binp, scs, wd, timeout=600 if tier == "quick" else 2400)
@@ -99,13 +195,14 @@ def main(tier, replay):
                                            "what": "a decision was not an answer of the request's own cluster within the cache TTL (or a review was sent to another cluster, or a cluster that cannot be asked was bypassed)"})
         rc = v.finish()
         calls = [e for t in tl for e in t["events"] if e["k"] == "call"]
-        cov = {"states": states + tv.distinct, "transitions": trans + tv.generated, "traces_validated_against_impl": len(tl) - len(rejected),
-               "samples": [tl[0]["events"][-6:]], "evaluations": len(calls), "distinct_nontrivial": len({vlib.canon(t["events"]) for t in tl}),
+        cov = {"states": states + tv.distinct, "transitions": trans + tv.generated, "traces_validated_against_impl": len(tl) - len(rejected) + htraces, "http_requests_real_manager": hreqs,
+               "samples": [tl[0]["events"][-6:]], "evaluations": len(calls) + hreqs, "distinct_nontrivial": len({vlib.canon(t["events"]) for t in tl}),
                "rule": "one evaluation = one AuthenticateToken / Authorize call of the real webhooks; histories: TLC -simulate over AuthCache.tla (3 hosts incl. an alias, 2 clusters, 2 keys, answer changes, TTL expiry, readiness flips, PAIRS of overlapping requests with the same key - the first one's review held in flight at its cluster -; alias moves in half of them)",
                "calls_allowed": sum(1 for c in calls if c["v"] == "allow"), "calls_overlapping_a_held_review": sum(1 for c in calls if c.get("overlapped")), "calls_from_cache": sum(1 for c in calls if not c["sentTo"] and c["v"] != "error"),
                "checker_cmd": "tlc AuthCache.tla (FromOwner); tlc -simulate AuthCacheGen.tla; tlc TraceAuth.tla", "exhaustive": False}
         vlib.write_evidence(PROP, tier, "model_checking", cov, time.time() - t0, len(v.violations),
-                            ["the cluster provider is a stub (host -> owner -> per-cluster fake clientset); TokenReview / SubjectAccessReview are answered by reactors from a scripted table",
+                            ["virtual-time part: the cluster provider is a stub (host -> owner -> per-cluster fake clientset); TokenReview / SubjectAccessReview are answered by reactors from a scripted table",
+                             "HTTP part: the real handler chain, the real webhooks, the real cluster manager (ClientFor) and controller; a server name moves between two live clusters; the stub upstreams answer the reviews naming themselves; real time, TTL 600 / 300 ms (or 0)",
                              "alias moves are an extension beyond the quantifier's text (the statement covers them)"])
         return rc
     finally:
